@@ -241,6 +241,8 @@ class Path:
         self.exc = None
         self.trace = []
         self.state = None
+        self.loop_start = None
+        self.loop_end = None
 
 
 class Interp:
@@ -907,6 +909,20 @@ class Frame:
                     if fv is old:
                         v.fields[fk] = new
 
+    def _state_snapshot(self):
+        """local variables at a loop head / body end (for relational obligations): SV terms, arrays as (array, length)"""
+        out = {}
+        for k, v in self.env.items():
+            if isinstance(v, SV):
+                out[k] = v.t
+            elif isinstance(v, bool):
+                out[k] = z3.BoolVal(v)
+            elif isinstance(v, int):
+                out[k] = z3.IntVal(v)
+            elif isinstance(v, SArr):
+                out[k] = (v.a, v.n)
+        return out
+
     def _loop(self, s, kind, iterable=None):
         ordinal = self.loop_id(s)
         spec = self.I.loops.get((self.qualname, ordinal))
@@ -940,6 +956,7 @@ class Frame:
             self.I.assume(itv.t >= 0)      # engine-maintained ghost counter: starts at 0, only incremented
             cond = itv.t < iterable.n
         v0 = spec.variant(view) if spec.variant else None
+        self.I.path.loop_start = self._state_snapshot()
         if self.I.decide(cond):
             if kind == 'for':
                 itv = self.env['__it%d' % ordinal]
@@ -953,6 +970,7 @@ class Frame:
                 # leaves the loop with the current state; continue after the loop
                 return
             view = EnvView(self)
+            self.I.path.loop_end = self._state_snapshot()
             self.I.oblige('inv-preserve', label, spec.invariant(view), s.lineno)
             if v0 is not None:
                 v1 = spec.variant(view)
